@@ -59,7 +59,24 @@ def run(prog: Program, rep, tier: str) -> None:
                         "callbacks of the user's Problem raise nothing themselves (premise: finite or non-finite *values*)"]
     x = ExcFlow(prog)
     rep.extra["exception_flow_rounds"] = x.rounds
+    containment(prog, rep, x)
 
+    # --- rule 3: failure result ----------------------------------------------------------
+    failure_result(prog, rep, x)
+
+    # --- rule 4: validate before accept -------------------------------------------------------
+    validate_before_accept(prog, rep, x)
+    typestate(prog, rep, x)
+
+    # --- rule 5: initial point -----------------------------------------------------------------
+    initial_point(prog, rep, x)
+
+    # --- rule 6: evaluator completeness -----------------------------------------------------------
+    evaluators(prog, rep)
+
+
+def containment(prog: Program, rep, x: ExcFlow) -> None:
+    """a failing linear solve / evaluation reaches compute_step's handlers as StepSolverError / EvalError and nothing else"""
     # --- rule 1: conversion at the step-solver boundary --------------------------------
     ss = prog.cls("pygradflow.step.solver.step_solver.StepSolver")
     concrete = [c for c in prog.all_subclasses(ss, include_self=False) if prog.in_scope(c)]
@@ -101,19 +118,6 @@ def run(prog: Program, rep, tier: str) -> None:
                      f"VIOLATED: {cls_.rsplit('.', 1)[-1]} raised at {origin} can escape Solver.solve", sv.loc(), list(chain))
     else:
         rep.ok("solve-contains-failures", sv.short, "neither StepSolverError nor LinearSolverError can escape Solver.solve")
-
-    # --- rule 3: failure result ----------------------------------------------------------
-    failure_result(prog, rep, x)
-
-    # --- rule 4: validate before accept -------------------------------------------------------
-    validate_before_accept(prog, rep, x)
-    typestate(prog, rep, x)
-
-    # --- rule 5: initial point -----------------------------------------------------------------
-    initial_point(prog, rep, x)
-
-    # --- rule 6: evaluator completeness -----------------------------------------------------------
-    evaluators(prog, rep)
 
 
 def _origin_key(prog: Program, origin: str) -> str:
